@@ -55,21 +55,22 @@ class IRTypes:
         if k in ("PascalString", "PaddedString"):
             return {("str",)}
         if k == "ExprAdapter":
+            from sa.consir import returned_exprs
             dec = n.a.get("decoder")
-            body = dec.node.body if isinstance(dec, Expr) and isinstance(dec.node, ast.Lambda) else None
-            if isinstance(body, ast.IfExp):
-                out = set()
-                for br in (body.body, body.orelse):
-                    if isinstance(br, ast.Constant) and br.value is None:
-                        out.add(("none",))
-                    elif isinstance(br, ast.Name):
-                        out |= self.result(n.a["sub"], depth + 1)
-                    else:
-                        out.add(("opaque",))
-                return out
-            if isinstance(body, ast.Call) and ast.unparse(body.func).endswith(".join"):
-                return {("str",)}
-            return {("opaque",)}
+            rets = returned_exprs(dec.node) if isinstance(dec, Expr) else None
+            if not rets:
+                return {("opaque",)}
+            out = set()
+            for br in rets:
+                if isinstance(br, ast.Constant) and br.value is None:
+                    out.add(("none",))
+                elif isinstance(br, ast.Name):
+                    out |= self.result(n.a["sub"], depth + 1)
+                elif isinstance(br, ast.Call) and ast.unparse(br.func).endswith(".join"):
+                    out.add(("str",))
+                else:
+                    out.add(("opaque",))
+            return out
         if k == "Peek":
             return self.result(n.a["sub"], depth + 1) | {("none",)}
         if k == "If":
@@ -161,7 +162,7 @@ def lambda_escapes(w: World, root: N, le, mod):
         if k in ("Computed", "Check") and isinstance(n.a.get("expr"), Expr) and holder is not None:
             n_sites += 1
             if not guarded:
-                if isinstance(n.a["expr"].node, ast.Lambda):
+                if isinstance(n.a["expr"].node, (ast.Lambda, ast.FunctionDef)):
                     out.extend(_lambda_site(n, holder, T, le))
                 else:
                     out.extend(_this_site(n, holder, T, le))
@@ -182,7 +183,7 @@ def _lambda_site(n, holder, T, le):
     before = subs[:idx]
     members = {s.name: s for s in before if s.name}
     optional = [m for m in refs if m in members and ("none",) in T.result(members[m])]
-    checks = [s for s in before if s.kind == "Check" and isinstance(s.a.get("expr"), Expr) and isinstance(s.a["expr"].node, ast.Lambda)]
+    checks = [s for s in before if s.kind == "Check" and isinstance(s.a.get("expr"), Expr) and isinstance(s.a["expr"].node, (ast.Lambda, ast.FunctionDef))]
     out = []
     base = {}
     for m in refs:
